@@ -162,11 +162,23 @@ func addScrubFieldsToSelectionSet(ctx *PlanningContext, selectionSet ast.Selecti
 func addSelectionSetToSanitizedResult(s ast.SelectionSet, ss ...ast.Selection) ast.SelectionSet {
 	ss = lo.Filter(ss, func(sel ast.Selection, i int) bool {
 		f, ok := sel.(*ast.Field)
-		if ok && selectionSetHasFieldNamed(s, f.Alias) {
+		// a field is a duplicate when its response key is already taken, not when
+		// an aliased selection of the same field is there
+		if ok && selectionSetHasFieldWithAlias(s, f.Alias) {
 			return false
 		}
 		return true
 
 	})
 	return append(s, ss...)
+}
+
+func selectionSetHasFieldWithAlias(ss []ast.Selection, alias string) bool {
+	for _, selection := range ss {
+		field, ok := selection.(*ast.Field)
+		if ok && field.Alias == alias {
+			return true
+		}
+	}
+	return false
 }
